@@ -175,6 +175,11 @@ func runC13(a *A) {
 			a.Check(len(missing) == 0, fname(site.fn)+"#binds", site.fn.Pos(), "binds "+strings.Join(site.names, ", "), "does not bind "+strings.Join(missing, ", ")+": the rewritten predicate would not compile in this environment")
 		}
 	})
+	a.Rule("shape/trailing-wildcards", 3, func() {
+		for _, m := range []*ssa.Function{a.Func("condition", "matchesLikePattern"), a.Func("expr", "matchLikePattern"), a.Method("functions", "ExprBridge", "matchesLikePattern")} {
+			a.ruleTrailingWildcards(m)
+		}
+	})
 	a.Rule("ordtab/wildcard-priority", 3, func() {
 		for _, m := range []*ssa.Function{a.Func("condition", "matchesLikePattern"), a.Func("expr", "matchLikePattern"), a.Method("functions", "ExprBridge", "matchesLikePattern")} {
 			a.ruleWildcardPriority(m)
@@ -278,4 +283,101 @@ func (a *A) ruleWildcardPriority(fn *ssa.Function) {
 	} else {
 		a.Bad(construct, header.Instrs[0].Pos(), "with the pattern byte '%%', the step depends on the text byte: when the text byte is also '%%' the wildcard is consumed as a literal match (paths {%s}) instead of acting as a wildcard (paths {%s}); e.g. '%%xb1' LIKE '%%b_' is decided false", s1, s2)
 	}
+}
+
+// ruleTrailingWildcards: once the text is exhausted, *every* remaining '%' of the pattern is skipped
+// (a loop, or a trim with cutset "%"), and the matcher accepts iff the pattern is then exhausted.
+func (a *A) ruleTrailingWildcards(fn *ssa.Function) {
+	construct := fname(fn) + "#trailing-wildcards"
+	var strParams []*ssa.Parameter
+	for _, p := range fn.Params {
+		if isStringType(p.Type()) {
+			strParams = append(strParams, p)
+		}
+	}
+	if len(strParams) != 2 {
+		a.Und(construct, fn.Pos(), "expected (text, pattern string) parameters")
+		return
+	}
+	text, pattern := strParams[0], strParams[1]
+	var main *loopInfo
+	loops := sccLoops(fn)
+	for _, li := range loops {
+		for b := range li.Blocks {
+			if iff, ok := b.Instrs[len(b.Instrs)-1].(*ssa.If); ok {
+				if bo, ok := iff.Cond.(*ssa.BinOp); ok && bo.Op == token.LSS {
+					if c, ok := bo.Y.(*ssa.Call); ok {
+						if cc, ok := isBuiltinCall(c, "len"); ok && cc.Args[0] == ssa.Value(text) && (main == nil || len(li.Blocks) > len(main.Blocks)) {
+							main = li
+						}
+					}
+				}
+			}
+		}
+	}
+	if main == nil {
+		a.Und(construct, fn.Pos(), "main loop over the text not recognised")
+		return
+	}
+	// a second loop, outside the main one, that tests pattern[i] == '%'
+	skip := false
+	for _, li := range loops {
+		if li == main {
+			continue
+		}
+		inside := false
+		for b := range li.Blocks {
+			if main.Blocks[b] {
+				inside = true
+			}
+		}
+		if inside {
+			continue
+		}
+		for b := range li.Blocks {
+			for _, in := range b.Instrs {
+				if bo, ok := in.(*ssa.BinOp); ok && bo.Op == token.EQL {
+					if k, ok := bo.Y.(*ssa.Const); ok && k.Value != nil && k.Value.Kind() == constant.Int && k.Int64() == '%' {
+						if t := TermOf(bo.X, nil); t.Kind == "index" && t.Base.Val == ssa.Value(pattern) {
+							skip = true
+						}
+					}
+				}
+			}
+		}
+	}
+	allInstrs(fn, func(in ssa.Instruction) {
+		if c, ok := in.(*ssa.Call); ok {
+			n := calleeFull(&c.Call)
+			if (n == "strings.TrimRight" || n == "strings.TrimLeft" || n == "strings.Trim") && !main.Blocks[c.Block()] {
+				if k, ok := c.Call.Args[1].(*ssa.Const); ok && k.Value != nil && constant.StringVal(k.Value) == "%" {
+					skip = true
+				}
+			}
+		}
+	})
+	// final acceptance: a return of (index == len(pattern)) outside the main loop
+	accept := false
+	for _, b := range fn.Blocks {
+		ret, ok := b.Instrs[len(b.Instrs)-1].(*ssa.Return)
+		if !ok || main.Blocks[b] || len(ret.Results) != 1 {
+			continue
+		}
+		for _, l := range phiLeaves(ret.Results[0]) {
+			if bo, ok := l.(*ssa.BinOp); ok && bo.Op == token.EQL {
+				for _, side := range []ssa.Value{bo.X, bo.Y} {
+					if c, ok := side.(*ssa.Call); ok {
+						if cc, ok := isBuiltinCall(c, "len"); ok && cc.Args[0] == ssa.Value(pattern) {
+							accept = true
+						}
+					}
+				}
+			}
+			if k, ok := l.(*ssa.Const); ok && k.Value != nil && k.Value.Kind() == constant.Bool {
+				_ = k
+			}
+		}
+	}
+	a.Check(skip && accept, construct, fn.Pos(), "after the text is exhausted all remaining '%' are skipped in a loop and the match is accepted iff the pattern is exhausted",
+		fmt.Sprintf("after the text is exhausted the matcher does not skip every remaining '%%' (loop found: %v) or does not accept on 'pattern exhausted' (found: %v): e.g. 'abc' LIKE 'a_c%%%%' is decided false", skip, accept))
 }
